@@ -8,6 +8,7 @@ import (
 	"encoding/hex"
 	"fmt"
 	"io"
+	"strings"
 	"testing"
 	"time"
 )
@@ -200,4 +201,68 @@ func TestC20UnsignedFramingLinesAreBounded(t *testing.T) {
 	case <-time.After(2 * time.Second):
 		t.Errorf("the reader is still buffering a trailer line after 2 s")
 	}
+}
+
+// C12: whether a stream is accepted must not depend on how it is cut into reads. A chunk header longer than
+// maxHeaderSize (a size field with many leading zeros) was refused when it arrived in pieces (the part kept for the next
+// read is limited) but accepted when it arrived in one read.
+func TestC12LongChunkHeaderIsJudgedTheSameHoweverItArrives(t *testing.T) {
+	for _, zeros := range []int{900, 1100, 3000} {
+		key := getSigningKey(c12Secret, c12Region, c12Date)
+		scope := fmt.Sprintf("%s/%s/s3/aws4_request", c12Date.Format("20060102"), c12Region)
+		prev := c12Seed
+		sign := func(c []byte) string {
+			h := sha256.Sum256(c)
+			sts := fmt.Sprintf("AWS4-HMAC-SHA256-PAYLOAD\n%s\n%s\n%s\n%s\n%s", c12Date.Format("20060102T150405Z"), scope, prev, zeroLenSig, hex.EncodeToString(h[:]))
+			prev = hex.EncodeToString(hmac256(key, []byte(sts)))
+			return prev
+		}
+		data := []byte("abcdefghij")
+		stream := []byte(strings.Repeat("0", zeros) + fmt.Sprintf("a;chunk-signature=%s\r\n%s\r\n", sign(data), data))
+		stream = append(stream, []byte(fmt.Sprintf("0;chunk-signature=%s\r\n\r\n", sign(nil)))...)
+		verdict := func(frag, buf int) bool {
+			r, err := NewSignedChunkReader(&fixedFragments{data: stream, k: frag}, AuthData{Signature: c12Seed}, c12Region, c12Secret, c12Date, "", false)
+			if err != nil {
+				t.Fatal(err)
+			}
+			b := make([]byte, buf)
+			for i := 0; i < 100000; i++ {
+				_, err := r.Read(b)
+				if err == io.EOF {
+					return true
+				}
+				if err != nil {
+					return false
+				}
+			}
+			return false
+		}
+		whole := verdict(len(stream), 8192)
+		for _, fb := range [][2]int{{512, 8192}, {1, 8192}, {len(stream), 100}, {1000, 8192}} {
+			if v := verdict(fb[0], fb[1]); v != whole {
+				t.Errorf("%d leading zeros: accepted=%v in one read with an 8192 byte buffer, accepted=%v in reads of %d bytes with a %d byte buffer", zeros, whole, v, fb[0], fb[1])
+			}
+		}
+	}
+}
+
+type fixedFragments struct {
+	data []byte
+	k    int
+}
+
+func (f *fixedFragments) Read(p []byte) (int, error) {
+	if len(f.data) == 0 {
+		return 0, io.EOF
+	}
+	n := f.k
+	if n > len(f.data) {
+		n = len(f.data)
+	}
+	if n > len(p) {
+		n = len(p)
+	}
+	copy(p, f.data[:n])
+	f.data = f.data[n:]
+	return n, nil
 }
